@@ -129,12 +129,15 @@ class InducingPointKernel(Kernel):
             replace_kernel_mat = True
             kernel_mat = self._cached_kernel_mat
 
+        # the likelihood is copied as well (through the memo, so that a copied model and its copied kernel keep sharing one
+        # likelihood): the added loss term of the copy must not depend on - or send gradients to - the original's noise
         cp = self.__class__(
-            base_kernel=copy.deepcopy(self.base_kernel),
-            inducing_points=copy.deepcopy(self.inducing_points),
-            likelihood=self.likelihood,
+            base_kernel=copy.deepcopy(self.base_kernel, memo),
+            inducing_points=copy.deepcopy(self.inducing_points, memo),
+            likelihood=copy.deepcopy(self.likelihood, memo),
             active_dims=self.active_dims,
         )
+        cp.train(self.training)
 
         if replace_inv_root:
             cp._cached_kernel_inv_root = kernel_inv_root
